@@ -2,7 +2,7 @@
 """tools/keep_seed.py <PROP> <n> <id> — copy a verified seeded change from /tmp/seed/out-<PROP>/<n> to /verif/seeded/<id>/."""
 import json, os, shutil, sys
 prop, n, sid = sys.argv[1:4]
-src = "/tmp/seed/out-%s/%s" % (prop, n)
+src = "/tmp/seed/%s-%s/%s" % (os.environ.get("SEED_OUT", "out"), prop, n)
 dst = "/verif/seeded/%s" % sid
 os.makedirs(dst, exist_ok=True)
 for f in ("patch.diff", "demo.diff", "RUN.txt"):
